@@ -36,7 +36,7 @@ type obs2 struct {
 // observe2 decodes s at level and queries every score view.
 func observe2(w *W, level int, s string) (x obs2) {
 	k := lib.Kind2(level)
-	o, err, pan := lib.Decode(k, s, false)
+	o, err, pan := lib.DecodeAuto(k, s)
 	if pan != nil || err != nil || o.IsNil() {
 		w.Count("valid_vector_not_decoded")
 		w.Sample(map[string]string{"not_decoded": s, "kind": k.String(), "err": lib.ErrText(err)})
